@@ -14,7 +14,10 @@
    __iadd__ / __isub__ in Props/C11_src.v (the code builds IPAddress objects from the network address on the way).
    iter_hosts returns iter([]) (ItEmpty) or the not yet started generator iter_iprange(a, b) (ItIprange); the model of
    Subnet.v has that generator's prologue already run: start_it.  No hypothesis.
+   Last conjunct: the symbol py_list_subnet that stands for list(cidr.subnet(prefix, count=count)) in the SubnetSplitter unit
+   (Model/SrcPreludeSplitter.v, Props/C20_src.v) is this regenerated generator run for `count` elements.
    Nothing but the statement closed by `exact`, followed by Print Assumptions. *)
+From NV Require Model.SrcPreludeSplitter.
 From NV Require Import Base.Tac Base.PyVal Model.Ip Model.PySlice Model.ListLike Model.Subnet Model.SrcPrelude Model.SrcPreludeSRCE
   Gen.pysrc_gen Gen.pysrc_subnet_gen Proofs.GenOk_Src_C11 Proofs.GenOk_Src_C11_subnet.
 Import ListNotations.
@@ -40,7 +43,14 @@ Theorem C11_source_tie_subnet :
   (forall ver v p step, valid_ver ver = true -> 0 <= p <= width ver -> 0 <= v < 2 ^ width ver ->
      src_IPNetwork_next ver (width ver) v p step = omap (wnet_net ver) (net_next (width ver) (v, p) step) /\
      src_IPNetwork_previous ver (width ver) v p step = omap (wnet_net ver) (net_previous (width ver) (v, p) step)) /\
-  (forall ver v p, (do it <- src_IPNetwork_iter_hosts ver (width ver) v p; start_it it) = iter_hosts ver (v, p)).
+  (forall ver v p, (do it <- src_IPNetwork_iter_hosts ver (width ver) v p; start_it it) = iter_hosts ver (v, p)) /\
+  (forall cidr prefix count fmt,
+     SrcPreludeSplitter.py_list_subnet cidr prefix count =
+       (do og <- src_IPNetwork_subnet_start (nver cidr) (width (nver cidr)) (nval cidr) (nplen cidr) prefix count fmt;
+        match og with
+        | None => Ok []
+        | Some st => py_gen_take (subnet_next_src (nver cidr) (nval cidr) (nplen cidr)) (Z.to_nat (snd (fst (fst st)))) st
+        end)).
 Proof. exact C11_subnet_tie_ok. Qed.
 Print Assumptions C11_source_tie_subnet.
 
